@@ -108,7 +108,7 @@ Definition isweep3 : bool :=
 Lemma isweep3_ok : isweep3 = true.
 Proof. vm_compute. reflexivity. Qed.
 
-(* today's code: the two witnesses *)
+(* the code before 671f51c (rep = false): the two witnesses *)
 Definition iw_reject_after_bind := [IeDiscover 0; IeAAA 0 RCur true; IeCreated true; IeRequest 0; IeAAA 0 RCur false].
 Definition iw_second_accept := [IeDiscover 0; IeAAA 0 RCur true; IeCreated true; IeAAA 0 RCur true; IeDiscover 0].
 Lemma ipoe_refuted :
